@@ -894,7 +894,7 @@ func ruleOwnerOverwrite(r *Report) {
 				if isFresh(a) || closesFieldBefore(cs.Fn, fld, cs) {
 					continue
 				}
-				if cs.Fn.Name() == "Open" {
+				if cs.Fn.Name() == "Open" || onlyFromOpen(p, cs.Fn, 3) {
 					continue
 				}
 				bad = append(bad, fmt.Sprintf("%s (%s)", FuncKey(cs.Fn), p.Pos(cs.Pos())))
@@ -1006,6 +1006,72 @@ func ruleReplayClosesPerFile(r *Report) {
 				closed = true
 			}
 		})
+	}
+	// from the moment the factory handed the reader out, somebody owns it on every way out of the function: it is stored
+	// into the variable the closing code reads, or closed, before anything can leave (the reader's file is open since the
+	// factory call, not since Open — a break for a header-less last file leaves too)
+	{
+		okey := key + "/owned-on-every-exit"
+		var rd ssa.Value
+		for _, rf := range *create.Instr.(ssa.Value).Referrers() {
+			if ex, ok := rf.(*ssa.Extract); ok && ex.Index == 0 {
+				rd = ex
+			}
+		}
+		owned := map[*ssa.BasicBlock]bool{}
+		if rd != nil {
+			// cells that some closing code reads
+			closedCells := map[ssa.Value]bool{}
+			for _, f := range closuresOf(holder) {
+				eachInstr(f, func(s Site) {
+					c, ok := s.Instr.(ssa.CallInstruction)
+					if !ok || !c.Common().IsInvoke() || c.Common().Method.Name() != "Close" {
+						return
+					}
+					if u, isU := c.Common().Value.(*ssa.UnOp); isU && u.Op == token.MUL && isCell(u.X) {
+						closedCells[rootCell(u.X)] = true
+					}
+				})
+			}
+			eachInstr(holder, func(s Site) {
+				switch x := s.Instr.(type) {
+				case *ssa.Store:
+					if x.Val == rd && isCell(x.Addr) && closedCells[rootCell(x.Addr)] {
+						owned[s.Block] = true
+					}
+				case ssa.CallInstruction:
+					if x.Common().IsInvoke() && x.Common().Method.Name() == "Close" && x.Common().Value == rd {
+						owned[s.Block] = true
+					}
+				}
+			})
+		}
+		removed := map[Edge]bool{}
+		for b := range owned {
+			for _, su := range b.Succs {
+				removed[Edge{b, su}] = true
+			}
+		}
+		succ, _ := errorEdges(*create)
+		leak := ""
+		for _, e := range succ {
+			if owned[e.To] {
+				continue
+			}
+			reach := reachFrom(e.To, removed)
+			for _, rs := range returnsOf(holder) {
+				if reach[rs.Block] && !owned[rs.Block] {
+					leak = r.P.Pos(rs.Pos())
+				}
+			}
+		}
+		if rd == nil || len(succ) == 0 {
+			r.Unk(rule, okey, create.Pos(), "the reader value or the test of the factory's error was not recognised")
+		} else if leak != "" {
+			r.Bad(rule, okey, create.Pos(), "the function can be left ("+leak+") after the factory handed out a reader without that reader having been closed or stored where the closing code finds it: a newest WAL file without header (killed mid-rotation) stays open for the life of the database — one more per Open of such a directory")
+		} else {
+			r.OK(rule, okey, create.Pos(), "the reader is owned before anything can leave")
+		}
 	}
 	if closed {
 		r.OK(rule, key, create.Pos(), "each file's reader is closed within its own iteration")
@@ -1525,4 +1591,25 @@ func ruleCloseReleasesAll(r *Report) {
 	} else {
 		r.OK(rule, key, rel[0].Pos(), "both releases run on every way out")
 	}
+}
+
+// onlyFromOpen: every call path to fn (up to the given depth) starts in a method called Open — a recovery helper that
+// Open delegates to runs under Open's guard ("already open") like Open itself.
+func onlyFromOpen(p *Prog, fn *ssa.Function, depth int) bool {
+	if fn.Name() == "Open" && fn.Signature.Recv() != nil {
+		return true
+	}
+	if depth == 0 {
+		return false
+	}
+	sites := p.CallSitesOf(fn)
+	if len(sites) == 0 {
+		return false
+	}
+	for _, cs := range sites {
+		if cs.Fn == fn || !onlyFromOpen(p, cs.Fn, depth-1) {
+			return false
+		}
+	}
+	return true
 }
